@@ -85,9 +85,26 @@ func findOffsetInstances(p *core.Prog) []offsetInstance {
 				case token.ASSIGN:
 					if be, isB := core.Unparen(ua.Rhs[0]).(*ast.BinaryExpr); isB && be.Op == token.ADD {
 						lv := core.ObjOf(info, ua.Lhs[0])
-						if lv != nil && core.ObjOf(info, be.X) == lv {
+						// V itself, or a copy of V taken earlier in the same iteration (cur := V; V = cur + L) with no
+						// assignment to V in between
+						isOld := func(e ast.Expr) bool {
+							o := core.ObjOf(info, e)
+							if o == nil || lv == nil {
+								return false
+							}
+							if o == lv {
+								return true
+							}
+							d := singleDef(f, o)
+							if d == nil || core.ObjOf(info, d) != lv || d.Pos() < inst.Loop.Pos() || d.Pos() > ua.Pos() {
+								return false
+							}
+							dn := g.NodeOf(d.Pos())
+							return dn != nil && g.Dominates(dn, u) && !reassignedBetween(g, info, dn, u, lv)
+						}
+						if isOld(be.X) {
 							addend = be.Y
-						} else if lv != nil && core.ObjOf(info, be.Y) == lv {
+						} else if isOld(be.Y) {
 							addend = be.X
 						}
 					}
@@ -205,52 +222,71 @@ func checkOffsetInstance(r *core.Report, rule string, inst offsetInstance) {
 	// (a) initialisation: before the loop the accumulator is zero plus the CAR header size
 	okInit, initWhy := false, "the accumulator does not start at the CAR header size"
 	nOther := 0
-	for _, n := range stmtNodes(g) {
-		if n.Ast.Pos() >= inst.Loop.Pos() {
-			continue
-		}
-		switch s := n.Ast.(type) {
-		case *ast.AssignStmt:
-			for i, l := range s.Lhs {
-				if core.ObjOf(info, l) != acc {
-					continue
-				}
-				var rhs ast.Expr
-				if len(s.Rhs) == len(s.Lhs) {
-					rhs = s.Rhs[i]
-				}
-				if s.Tok == token.DEFINE || s.Tok == token.ASSIGN {
-					if c, ok := core.ConstInt(info, rhs); ok && c == 0 {
-						continue
-					}
-					if isHeaderSizeValue(p, f, rhs) {
-						okInit = true
-						continue
-					}
-					nOther++
-					initWhy = "the accumulator is initialised with " + core.ExprStr(rhs)
-				}
-				if _, addend, isAdd := addStep(info, s); isAdd && addend != nil && s.Tok != token.ADD_ASSIGN {
-					// acc = acc + X before the loop
-					if isHeaderSizeValue(p, f, addend) {
-						okInit = true
-						nOther-- // counted as "initialised with" above
-					}
-				}
-				if s.Tok == token.ADD_ASSIGN {
-					if isHeaderSizeValue(p, f, rhs) {
-						okInit = true
-					} else {
-						nOther++
-						initWhy = "the accumulator is advanced by " + core.ExprStr(rhs) + " before the loop"
-					}
-				}
+	type initScope struct {
+		fn    *core.Func
+		g     *core.Graph
+		limit token.Pos
+	}
+	scopes := []initScope{{f, g, inst.Loop.Pos()}}
+	if v, isVar := acc.(*types.Var); isVar && v.IsField() {
+		// the accumulator is a field of a cursor object handed to this function: its initialisation is in the callers,
+		// before they call this function for the first time
+		for _, cs := range p.Callers(f) {
+			if cs.In == nil || cs.In.Pkg != f.Pkg || cs.In == f {
+				continue
 			}
-		case *ast.ValueSpec:
-			for i, nm := range s.Names {
-				if info.Defs[nm] == acc && i < len(s.Values) {
-					if c, ok := core.ConstInt(info, s.Values[i]); !ok || c != 0 {
+			scopes = append(scopes, initScope{cs.In.Root(), p.Graph(cs.In.Root()), cs.Call.Pos()})
+		}
+	}
+	for _, sc := range scopes {
+		f, info := sc.fn, sc.fn.Pkg.TypesInfo
+		for _, n := range stmtNodes(sc.g) {
+			if n.Ast.Pos() >= sc.limit {
+				continue
+			}
+			switch s := n.Ast.(type) {
+			case *ast.AssignStmt:
+				for i, l := range s.Lhs {
+					if core.ObjOf(info, l) != acc {
+						continue
+					}
+					var rhs ast.Expr
+					if len(s.Rhs) == len(s.Lhs) {
+						rhs = s.Rhs[i]
+					}
+					if s.Tok == token.DEFINE || s.Tok == token.ASSIGN {
+						if c, ok := core.ConstInt(info, rhs); ok && c == 0 {
+							continue
+						}
+						if isHeaderSizeValue(p, f, rhs) {
+							okInit = true
+							continue
+						}
 						nOther++
+						initWhy = "the accumulator is initialised with " + core.ExprStr(rhs)
+					}
+					if _, addend, isAdd := addStep(info, s); isAdd && addend != nil && s.Tok != token.ADD_ASSIGN {
+						// acc = acc + X before the loop
+						if isHeaderSizeValue(p, f, addend) {
+							okInit = true
+							nOther-- // counted as "initialised with" above
+						}
+					}
+					if s.Tok == token.ADD_ASSIGN {
+						if isHeaderSizeValue(p, f, rhs) {
+							okInit = true
+						} else {
+							nOther++
+							initWhy = "the accumulator is advanced by " + core.ExprStr(rhs) + " before the loop"
+						}
+					}
+				}
+			case *ast.ValueSpec:
+				for i, nm := range s.Names {
+					if info.Defs[nm] == acc && i < len(s.Values) {
+						if c, ok := core.ConstInt(info, s.Values[i]); !ok || c != 0 {
+							nOther++
+						}
 					}
 				}
 			}
